@@ -1,7 +1,7 @@
 (* C19 -- UML class generation is complete, namespace-faithful and self-consistent.
    Only statements, each closed by [exact], each followed by Print Assumptions. *)
-From Coq Require Import String List Bool.
-From KV Require Import Lib.Str Model.Vpp Gen.UmlSrc Model.Uml Proofs.UmlProofs.
+From Coq Require Import String Ascii List Bool.
+From KV Require Import Lib.Str Model.Vpp Gen.UmlSrc Model.Uml Spec.UmlSpec Proofs.UmlProofs Proofs.UmlFiles.
 Import ListNotations.
 Open Scope string_scope.
 
@@ -20,9 +20,9 @@ Print Assumptions C19_decl_def.
 
 (* Multiplicity one: when the operations emitted for the source file are pairwise different (NoDup), every one of them is
    defined exactly once -- and by C19_decl_def declared exactly once.
-   FULL STATEMENT (false, K-C19-1): "every declared operation has exactly one definition" without the NoDup hypothesis; an
-   operation that is declared in the class and also realised from an interface, or reached through two interfaces, is
-   emitted twice on both sides. *)
+   FULL STATEMENT (still false of the repaired code): "every declared operation has exactly one definition" without the NoDup
+   hypothesis; an operation declared in the class AND realised is emitted once since the fix (K-C19-1), but an operation
+   reached through two different interfaces, or drawn twice in one class, is still emitted twice on both sides. *)
 Theorem C19_decl_def_unique_partial : forall (eqb : entry -> entry -> bool) (df : list entry) (e : entry),
   (forall a b, eqb a b = true <-> a = b) -> NoDup df -> In e df -> count (eqb e) df = 1.
 Proof. exact (fun eqb df e => count_one_of_nodup eqb df e). Qed.
@@ -30,12 +30,14 @@ Print Assumptions C19_decl_def_unique_partial.
 
 (* Realised interfaces: if class c realises the pure virtual interface p (an inheritance entry whose CLASS_TO_ID mentions c's
    id, flagged as realisation), every operation o of p whose visibility matches the section is emitted for c -- defined as
-   c::o, declared with 'override' (C19_realised_rendering) -- whenever generation returns at all. *)
-Theorem C19_realised : forall (d : cdiagram) (fuel : nat) (vis : string) (c : cls) (i : inh) (p : cls) (o : oper) (l : list entry),
+   c::o, declared with 'override' (C19_realised_rendering) -- unless c declares an operation of the same signature (name,
+   parameter types, constness) itself, which then IS the override (the repaired code no longer emits it twice). *)
+Theorem C19_realised : forall (d : cdiagram) (fuel : nat) (vis : string) dcl (c : cls) (i : inh) (p : cls) (o : oper) (l : list entry),
   In i (inhs d) -> contains (c_id c) (i_to i) = true -> i_real i = true ->
   find_class (classes d) (i_from i) = Some p -> c_pure p = true ->
   In o (c_ops p) -> vis_match vis o = true -> c_name c <> "" ->
-  ops_of (S (S fuel)) d vis "" c = Some l ->
+  existsb (key_eqb (sig_key o)) (declared_of c) = false ->
+  ops_of (S (S fuel)) d vis "" dcl c = Some l ->
   In {| en_class := c_name c; en_owner := c_name p; en_owner_pure := true; en_realised := true; en_op := o |} l.
 Proof. exact realised_emitted. Qed.
 Print Assumptions C19_realised.
@@ -47,7 +49,7 @@ Print Assumptions C19_realised_rendering.
 
 (* Cyclic realisation: for the diagram  CImpl --realises--> ILoop --realises--> ILoop  no fuel suffices (Python: RecursionError);
    this is why the theorems above speak about runs that return. *)
-Theorem C19_cycle_refuted : exists d c, forall fuel vis, ops_of fuel d vis "" c = None.
+Theorem C19_cycle_refuted : exists d c, forall fuel vis, ops_of fuel d vis "" [] c = None.
 Proof. exact (ex_intro _ cyc_diagram (ex_intro _ cyc_class cycle_none)). Qed.
 Print Assumptions C19_cycle_refuted.
 
@@ -59,3 +61,67 @@ Theorem C19_source_shape : kind_tests =
    "not classobj.IS_ENUM and classobj.IS_STRUCT"].
 Proof. exact kind_tests_pinned. Qed.
 Print Assumptions C19_source_shape.
+
+(* Acyclic diagrams never run out of fuel: with acyclic d (no realisation / generalisation cycle among pure virtual interfaces
+   reachable from a class; C19_acyclic_excludes_cycles) and closed d (no inheritance entry to a class outside the diagram), the
+   recursion budget "number of classes" suffices for every class, so C19_decl_def is a statement about ALL such diagrams:
+   header side and source side both return and emit the same operations. *)
+Theorem C19_decl_def_acyclic : forall (d : cdiagram) (c : cls) (P : entry -> bool),
+  acyclic d = true -> closed d = true -> wf_vis d = true -> In c (classes d) ->
+  exists dl df, decls_of (List.length (classes d)) d c = Some dl /\ defs_of (List.length (classes d)) d c = Some df
+                /\ count P dl = count P df.
+Proof. exact acyclic_decl_def. Qed.
+Print Assumptions C19_decl_def_acyclic.
+
+(* acyclic is not a vacuous name: any set of classes in which every member has a parent edge into the set (the classes on a
+   cycle) contains no class that is bounded by any n; so acyclic d = true excludes every cycle through a class of d.
+   (The converse -- no cycle implies bounded by the number of classes -- is the pigeonhole principle; it is NOT proved here
+   and no theorem above depends on it.) *)
+Theorem C19_acyclic_excludes_cycles : forall (d : cdiagram) (S : list cls),
+  (forall x, In x S -> exists y, In y S /\ In y (edge_parents d x)) -> forall n x, In x S -> bounded n d x = false.
+Proof. exact cycle_unbounded. Qed.
+Print Assumptions C19_acyclic_excludes_cycles.
+
+Example C19_decl_def_acyclic_nonvacuous :
+  acyclic ok_diagram = true /\ closed ok_diagram = true /\ wf_vis ok_diagram = true /\ acyclic cyc_diagram = false
+  /\ option_map (map def_head) (defs_of 3 ok_diagram cyc_class) = Some ["int CImpl::G() const"; "void CImpl::F()"].
+Proof. exact ok_diagram_facts. Qed.
+Print Assumptions C19_decl_def_acyclic_nonvacuous.
+
+(* Files.  For every diagram whose class names are non-empty and free of '.' and '/' (path_ok) and in which no two generated
+   elements are asked into the same file (distinct_paths -- exactly what fails in K-C19-5), the code model built by
+   loadtemplates_firstfiltering from the shipped C++ templates has exactly the keys expected_files lists, each owned by its
+   class: for every element spec_exts gives the extensions (C19_files_meaning: a header for every element that is not
+   stereotyped as generated elsewhere, a source file in addition exactly for concrete classes), placed under
+   folder_chain(namespace)/ when namespace folders are requested (C19_folder_chain: A::B::C -> A/B/C). *)
+Theorem C19_files : forall (nsf : bool) (d : cdiagram),
+  files_hyp nsf d = true -> files_of template_files nsf d = expected_files nsf d.
+Proof. exact files_of_expected. Qed.
+Print Assumptions C19_files.
+
+Theorem C19_files_meaning : forall c, c_autogen c = false -> c_enum c && c_struct c = false ->
+  spec_exts c = ".h" :: (if concrete c then [".cpp"] else []).
+Proof. exact spec_exts_meaning. Qed.
+Print Assumptions C19_files_meaning.
+
+Theorem C19_folder_chain : forall ns, ns_path ns = join "/" (split2 ":" ":" ns).
+Proof. exact ns_path_chain. Qed.
+Print Assumptions C19_folder_chain.
+
+Example C19_files_nonvacuous :
+  files_hyp true ok_diagram = true /\ files_hyp false ok_diagram = true
+  /\ map fst (expected_files true ok_diagram) = ["N/CImpl.h"; "N/CImpl.cpp"; "N/ILoop.h"; "N/IBase.h"].
+Proof. repeat split; vm_compute; reflexivity. Qed.
+Print Assumptions C19_files_nonvacuous.
+
+(* Namespace wrap.  With comps = ns.split("::"): ns_begin is the opening text without its first blank, ns_end the closing
+   text without its first blank followed by the comment naming ns; opening ++ body ++ closing is EXACTLY the properly nested
+   chain  namespace c1 { namespace c2 { ... body ... } }  (wrap: one closing brace per opened namespace, innermost first),
+   and the comment names the same chain (ns = "::".join(comps)). *)
+Theorem C19_namespace_balanced : forall ns body,
+  ns_begin ns = lstrip_sp (ns_open_raw ns) /\ ns_end ns = lstrip (ns_close_raw ns) ++ " // end namespace " ++ ns
+  /\ ns_open_raw ns = String SP (ns_begin ns) /\ ns_close_raw ns = String SP (lstrip (ns_close_raw ns))
+  /\ ns_open_raw ns ++ body ++ ns_close_raw ns = wrap (split2 ":" ":" ns) body
+  /\ join "::" (split2 ":" ":" ns) = ns.
+Proof. exact namespace_balanced. Qed.
+Print Assumptions C19_namespace_balanced.
